@@ -441,7 +441,7 @@ def binary_xor(x, y, n_word=None):
 
 @np.vectorize
 def clip(x, val_min, val_max):
-    x_clipped = np.array(max(val_min, min(val_max, x)))
+    x_clipped = np.array(min(val_max, max(val_min, x)))      # (the order of np.clip: val_max wins when the bounds are crossed)
     return x_clipped
 
 @np.vectorize
